@@ -1,5 +1,7 @@
 """Property -> rules registry (DESIGN.md sections 0, 4, 5)."""
-from rules import g_thread
+import copy
+
+from rules import g_thread, g_cover, g_alt, g_struct, k_keywords, t_tree, x_pp, x_calls, w_api
 
 TRUSTED_BASE = [
     'rustc front end / MIR construction (nightly 1.97) and syn 2 as parsers of the Rust sources',
@@ -10,42 +12,217 @@ TRUSTED_BASE = [
 
 _cache = {}
 
+MODULES = {
+    'g_thread': g_thread.run, 'g_cover': g_cover.run, 'g_alt': g_alt.run, 'g_struct': g_struct.run,
+    'k_keywords': k_keywords.run, 't_tree': t_tree.run, 'x_pp': x_pp.run, 'x_calls': x_calls.run, 'w_api': w_api.run,
+}
+# rule id -> module that computes it
+RULE_HOME = {
+    'G1': 'g_thread', 'G3': 'g_thread',
+    'G5': 'g_cover', 'G8': 'g_cover',
+    'G6': 'g_alt', 'G7': 'g_alt',
+    'G0': 'g_struct', 'G9': 'g_struct', 'G10': 'g_struct', 'G11': 'g_struct', 'G12': 'g_struct', 'G13': 'g_struct',
+    'K1': 'k_keywords', 'K2': 'k_keywords', 'K3': 'k_keywords', 'K4': 'k_keywords',
+    'T1': 't_tree', 'T2': 't_tree', 'T3': 't_tree', 'G4c': 't_tree',
+    'X1': 'x_pp', 'X2': 'x_pp', 'X3': 'x_pp', 'X5': 'x_pp', 'X6': 'x_pp', 'X7': 'x_pp',
+    'X8': 'x_calls', 'X9': 'x_calls', 'X10': 'x_calls', 'X11': 'x_calls', 'X12': 'x_calls', 'P2': 'x_calls',
+    'W1': 'w_api', 'W2': 'w_api', 'W3': 'w_api', 'W4': 'w_api', 'W5': 'w_api',
+}
 
-def once(name, fn):
-    """Rules shared by several properties are evaluated once per process."""
+
+def register(rule_id, module_name, fn):
+    MODULES[module_name] = fn
+    RULE_HOME[rule_id] = module_name
+
+
+def rule(rule_id, keep=None, drop=None):
+    """Evaluate the module of `rule_id` once per process and return that rule's result;
+    keep/drop filter findings by substring of the key (a rule shared by two properties
+    reports each finding under the property whose clause it breaks)."""
     def run(ctx):
-        if name not in _cache:
-            _cache[name] = fn(ctx)
-        return _cache[name]
-    return run
+        mod = RULE_HOME[rule_id]
+        if mod not in _cache:
+            out = MODULES[mod](ctx)
+            _cache[mod] = out if isinstance(out, list) else [out]
+        res = [r for r in _cache[mod] if r.rule == rule_id]
+        if not res:
+            raise RuntimeError('rule %s produced no result (module %s)' % (rule_id, mod))
+        if keep is None and drop is None:
+            return res
+        out = []
+        for r in res:
+            r2 = copy.copy(r)
+            r2.findings = [f for f in r.findings
+                           if (keep is None or any(k in f.key for k in keep) or ':floor:' in f.key or ':anchor:' in f.key or ':crash' in f.key)
+                           and not (drop is not None and any(k in f.key for k in drop))]
+            out.append(r2)
+        return out
+    return (rule_id, run)
 
 
-def pick(name, fn, *rule_ids):
-    def run(ctx):
-        out = once(name, fn)(ctx)
-        if not isinstance(out, list):
-            out = [out]
-        return [r for r in out if r.rule in rule_ids]
-    return run
-
-
-G1G3 = ('g_thread', g_thread.run)
+LOOKAHEAD = ['lookahead-no-boundary']
 
 PROPS = {
     'C01': {
-        'rules': [('G1', pick(*G1G3, 'G1')), ('G3', pick(*G1G3, 'G3'))],
-        'explanation': 'Structural-induction premises for "the leaves of the tree tile the text": every production '
-                       'threads the input span linearly and returns a node that contains each consumed output exactly '
-                       'once, in consumption order, by construction only (G1); output is discarded only from '
-                       'non-consuming look-ahead parsers (G3).',
-        'decided': 'G1, G3',
-        'not_decided': 'correctness of nom / nom_locate (trusted)',
-        'assumptions': ['nom 7 combinators behave as documented'],
-        'level_text': 'Exhaustive static check of the structural-induction premises of losslessness over every '
-                      'production of the grammar (about 1300 parser bodies, 770 map closures): a violating production '
-                      'is named. Holds for every input because it is a property of the program text.',
-        'level_note': 'trusts nom/nom_locate semantics and the derive-generated child enumeration (checked separately by T1/T2)',
-        'technique': 'custom syntax-tree dataflow lint (linear use of consumed outputs per production)',
+        'rules': [rule('G0'), rule('G1'), rule('G3'), rule('G10'), rule('G11'), rule('T1'), rule('T2'), rule('T3'),
+                  rule('G4c'), rule('W4'), rule('W5')],
+        'explanation': 'Structural-induction premises for "the leaves of the tree tile the preprocessed text". Terminals: the token '
+                       'helpers keep the lexeme and its trailing trivia (G0, G1 on the helper closures). Sequencing: every one of '
+                       'the ~1300 productions threads the input span linearly and returns a node containing each consumed output '
+                       'exactly once, in consumption order, by construction only (G1); output is discarded only from look-ahead '
+                       '(G3). Enumeration: the RefNodes conversions (T1) and the derive-generated next()/into_iter()/Locate-merge '
+                       'of all 1242 node types (T2, T3, G4c; macro-expanded source) enumerate children in field order. Whole '
+                       'text: strict entries end in many_till(ITEM, eof) (G10), incomplete ones are their many0 relaxation (G11: '
+                       'a prefix). Same text: a SyntaxTree is built only together with the text that was parsed (W4) and '
+                       'get_str slices first-leaf-start .. last-leaf-end of it (W5). By induction over the grammar the leaves, in '
+                       'iteration order, are adjacent and start at 0.',
+        'decided': 'G0 G1 G3 G10 G11 T1 T2 T3 G4c W4 W5',
+        'not_decided': 'correctness of nom / nom_locate (trusted): byte offsets, line counting and char boundaries of the '
+                       'fragments the lexers return; coverage of multi-fragment lexemes (G2) is checked separately when registered',
+        'assumptions': ['nom 7 combinators and nom_locate behave as documented',
+                        'trees are produced by the parser (node structs have public fields; hand-built trees are outside the claim)'],
+        'level_text': 'Exhaustive static check of the structural-induction premises of losslessness over every production of the '
+                      'grammar (about 1300 parser bodies, 770 map closures) and every generated child enumeration (1242 node '
+                      'types): a violating production or impl is named. Holds for every input because it is a property of the '
+                      'program text, not of sampled runs.',
+        'level_note': 'trusts nom/nom_locate semantics; the argument is an induction whose per-production premises are what is checked',
+        'technique': 'custom syntax-tree dataflow lint (linear use of consumed outputs per production) + macro-expanded impl audit',
+        'needs_exp': True,
+    },
+    'C02': {
+        'rules': [rule('G5'), rule('G6'), rule('G7', drop=LOOKAHEAD), rule('G8')],
+        'explanation': 'Necessary conditions for "accepted and classified under their production", anchored in the three stated '
+                       'mechanisms. One parser per production, every production addressable: every parser is reachable from an '
+                       'entry and every CST struct / enum variant (the repository\'s own copy of Annex A: 936 structs, 1048 '
+                       'variants) is constructed by a reachable parser (G5); a keyword arm builds the variant named after the '
+                       'keyword (G8). Ordered choice picks the intended production: no alternative is shadowed by an earlier '
+                       'literal alternative (G6). Keywords need a word boundary: word-shaped terminals go through keyword(), '
+                       'whose every success path tests the boundary over the identifier alphabet (G7).',
+        'decided': 'G5 G6 G7a/c G8 — coverage, ordering and word-boundary necessary conditions',
+        'not_decided': 'acceptance of all Annex A sentences (needs the Annex A BNF, absent from the repository, and a PEG/CFG inclusion '
+                       'check); non-literal shadowing between alternatives',
+        'assumptions': ['the CST type definitions are the reference for "the Annex A node kind of a construct"'],
+        'level_text': 'Exhaustive static coverage/ordering analysis of the grammar: each unreachable production, never-built node kind, '
+                      'shadowed alternative or boundary-less word terminal is named. It decides necessary conditions, not language '
+                      'acceptance.',
+        'level_note': 'partial: language inclusion is out of reach for static analysis here',
+        'technique': 'call-graph reachability + constructor coverage over the CST type graph; ordered-choice prefix analysis',
+    },
+    'C03': {
+        'rules': [rule('X1'), rule('X2'), rule('X3')],
+        'explanation': 'Every emission site that copies source text records Range(offset, offset+len) of exactly that text under the '
+                       'file being read (X1, 21 sites); only new/push/merge write the text and the map, push keys each segment by '
+                       '[len before, len before + s.len()) and merge re-bases keys and origins (X3), so keys tile the output; keys '
+                       'are never empty (X2), which is what Range\'s overlap-as-equality ordering needs for a 1-byte probe to find '
+                       'exactly the segment containing it; text without origin is pushed only by the `__FILE__/`__LINE__ arm and '
+                       'expansions carry the origin stored with the macro definition (X3).',
+        'decided': 'X1 X2 X3',
+        'not_decided': 'that macro origins are "not before the macro body"; double emissions after string literals (X4, registered with C06)',
+        'assumptions': ['BTreeMap look-up with a consistent order on disjoint non-empty ranges'],
+        'level_text': 'Exhaustive static audit of all emission sites and writers of the origin map; an emission whose recorded range is '
+                      'not the range of the copied text is named.',
+        'level_note': 'partial: arithmetic inside merge/origin is matched structurally (three statements), not proved',
+        'technique': 'call-site agreement lint (text argument vs recorded range) + who-may-write analysis',
+    },
+    'C04': {
+        'rules': [rule('X5'), rule('X6'), rule('X7'), rule('G7', keep=LOOKAHEAD)],
+        'explanation': 'The definedness predicate is evaluated on one name (X5); the `ifdef and `ifndef handlers are the same '
+                       'algorithm up to the negated first test (X6); nothing in a skipped region can touch the define table, the '
+                       'output, raise an error or start a nested run, because the skip guard precedes every effect of the loop '
+                       '(X7); branch bodies end only at a real `elsif/`else/`endif, the look-ahead testing the word boundary (G7b).',
+        'decided': 'X5 X6 X7 G7b',
+        'not_decided': 'that the three nested ifs select the first true branch (X6 only cross-checks the two copies); token-for-token output',
+        'assumptions': [],
+        'level_text': 'Static sibling-agreement, guard-dominance and predicate-consistency checks over the conditional-compilation '
+                      'handlers; each deviating test or unguarded effect is named.',
+        'level_note': 'partial: decides structural necessary conditions of 22.6 branch selection',
+        'technique': 'sibling cross-check + must-precede (guard before effect) analysis on the event loop',
+    },
+    'C09': {
+        'rules': [rule('X8')],
+        'explanation': 'Termination by ranking over the real call graph of the preprocessor: the recursive component '
+                       '{preprocess_str, preprocess_inner, resolve_text_macro_usage} is found from the call graph; every edge '
+                       'carries both depth counters unchanged or +1 (no reset, no drop), every simple cycle increments a counter '
+                       'whose `> RECURSIVE_LIMIT => ExceedRecursiveLimit` guard lies on the cycle, public entries start the '
+                       'counters at 0, the guard operator is `>` (so exactly RECURSIVE_LIMIT levels succeed), RECURSIVE_LIMIT = 64 '
+                       '>= 15. "Wrapped once per include level" is X10 on the include edge (registered with C10).',
+        'decided': 'X8 (as a whole: termination + limit arithmetic)',
+        'not_decided': 'stack size needed for 64 levels',
+        'assumptions': [],
+        'level_text': 'A termination argument (ranking function) checked on every edge and cycle of the recursive component, including '
+                      'the mixed macro/include cycles no test builds.',
+        'level_note': 'counters are matched by parameter name inside one crate; arithmetic limited to +1 / constants',
+        'technique': 'call-graph SCC + per-edge counter transfer analysis (ranking argument)',
+    },
+    'C10': {
+        'rules': [rule('X9'), rule('X10'), rule('X11'), rule('X12'), rule('P2')],
+        'explanation': 'The live define table goes into the nested run and the returned table is adopted, the included text is merged '
+                       '(X9, X10); a failing included run is wrapped in Error::Include and a missing file is File{path tried} (X10, '
+                       'P2); nothing opens or probes a file unless the arm guard `!ignore_include` holds (X11); flags are forwarded '
+                       'to the parameter of the same name (X9); the search uses the literal path when absolute or existing, else '
+                       'the include paths in the given order with the first hit winning, and that path is the one opened (X12).',
+        'decided': 'X9 X10 X11 X12 P2',
+        'not_decided': 'file-system semantics of exists/join; the IncludeLine rule (line arithmetic); "contributes no tokens"',
+        'assumptions': [],
+        'level_text': 'Static call-site and control-dependence checks on the `include handler; each mis-forwarded argument, dropped result '
+                      'or unguarded file access is named.',
+        'level_note': 'partial: shape of the search loop, not the file system',
+        'technique': 'named-parameter threading lint + must-adopt / control-dependence checks',
+    },
+    'C14': {
+        'rules': [rule('G10'), rule('W3'), rule('W1'), rule('G0')],
+        'explanation': 'Strict entries cannot succeed before end of input; bracket helpers demand both delimiters; no closing delimiter or '
+                       'block-closing keyword is optional anywhere in the grammar (G10, G0); failures are mapped to Error::Parse '
+                       'through the origin map of the parsed text and to Error::Preprocess with the path being read (W3), '
+                       'identically for both grammars (W1).',
+        'decided': 'G10 G0 W3 W1',
+        'not_decided': 'that the reported position is not after the fault (GreedyError run-time maximum); that every deletion makes some '
+                       'production fail',
+        'assumptions': [],
+        'level_text': 'Static strictness-structure and error-mapping audit.',
+        'level_note': 'partial',
+        'technique': 'grammar-shape lint (mandatory closers, eof-terminated entries) + error-mapping site audit',
+    },
+    'C15': {
+        'rules': [rule('G9'), rule('G11'), rule('W2')],
+        'explanation': 'The incomplete entries consist only of combinators that cannot fail (many0, opt) over item parsers that cannot '
+                       'succeed on empty input (G9: least-fixed-point nullability over the grammar; 363 repetition sites) and no '
+                       'parser raises nom Failure/cut (G11) => never Error::Parse; they are the strict entries with many_till(X, eof) '
+                       'relaxed to many0(X) and build the same node (G11) => on an input the strict entry accepts they perform the '
+                       'same item parses; allow_incomplete selects `<entry>_incomplete`, its absence `<entry>` (W2).',
+        'decided': 'G9 G11 W2 (as a whole, given C17 for determinism of item parsers and C01 for losslessness)',
+        'not_decided': '',
+        'assumptions': ['nom many0/opt never fail on Err::Error'],
+        'level_text': 'Totality argument checked statically: combinator totality + grammar nullability fixed point + sibling equality.',
+        'level_note': 'relies on nom semantics of many0/opt and absence of Failure',
+        'technique': 'nullability fixed point over the grammar IR + sibling IR equality',
+    },
+    'C16': {
+        'rules': [rule('T1'), rule('T2'), rule('T3')],
+        'explanation': 'Children are enumerated in source (field) order by every RefNodes conversion (T1) and by the generated '
+                       'Node::next of all node types; RefNode::next / into_iter / From<&AnyNode> dispatch every variant to its own '
+                       'payload (T2); Iter is constructed with its stack reversed exactly once at each of its construction sites (T3).',
+        'decided': 'T1 T2 T3 (narrow: enumeration order and dispatch)',
+        'not_decided': 'Iter::next, EventIter::next, unwrap_node!, get_str_trim as algorithms over all tree shapes',
+        'assumptions': [],
+        'level_text': 'Exhaustive audit of generated and hand-written child enumeration (1242 types).',
+        'level_note': 'narrow: the two iterator stack machines are not verified',
+        'technique': 'macro-expanded impl audit',
+        'needs_exp': True,
+    },
+    'C20': {
+        'rules': [rule('W1'), rule('W2'), rule('X9')],
+        'explanation': 'Each facade function is a fixed composition of the next layer: parse_X / parse_X_str are exactly `let (text, '
+                       'defines) = preprocess[_str](..)?; parse_X_pp(text, defines, allow_incomplete)` and the sv and lib families are '
+                       'identical up to the entry called (W1); every parameter is forwarded to the parameter of the same name, '
+                       'strip_comments=false and depth 0 are the only constants (X9); preprocess = read the file, then '
+                       'preprocess_str with the same arguments (X9 on the internal calls); the mode is chosen identically (W2).',
+        'decided': 'W1 W2 X9 (as a whole: under these premises the stated equalities are immediate)',
+        'not_decided': '',
+        'assumptions': ['reading a file yields the string the caller would pass'],
+        'level_text': 'Wrapper-equivalence by structural identity and argument threading, checked for every call site.',
+        'level_note': '',
+        'technique': 'sibling AST equality modulo substitution + named-parameter threading lint',
     },
 }
 
